@@ -121,7 +121,8 @@ def run(repo="/repo", build=None, twin=False, rlimit=None, threads=16, extra_arg
     else:
         res["status"] = "ok"
     res["meta"] = {"labels": meta["labels"], "contracted": meta["contracted"], "fn_inventory": meta["fn_inventory"],
-                   "files": meta["files"], "rewrite_log": meta["rewrite_log"], "fn_lines": fn_lines}
+                   "files": meta["files"], "rewrite_log": meta["rewrite_log"], "fn_lines": fn_lines,
+                   "lemma_props": meta.get("lemma_props", {})}
     # per-function smt times
     res["fn_times"] = _fn_times(oj.get("times-ms"))
     return res
